@@ -35,8 +35,8 @@ import (
 	"time"
 
 	"github.com/kubeshark/base/pkg/api"
-	stg "verif/harness/stage"
 	"github.com/kubeshark/base/pkg/extensions/redis"
+	stg "verif/harness/stage"
 
 	"verif/harness/mock"
 )
